@@ -4,6 +4,7 @@ import (
 	"fmt"
 	"go/token"
 	"go/types"
+	"morlockverif/checker/internal/core"
 	"strings"
 
 	"golang.org/x/tools/go/ssa"
@@ -52,6 +53,9 @@ func runC05(c *Ctx) {
 	c.guard("R05-reptail", func() { c05Recount(c, g) })
 	c.guard("R05-mate", func() { c05Mate(c, g) })
 	_ = b
+	// analysis runs on forked boards: the fork must carry the clock and the history the rules above count in
+	r.Rule("R05-fork", "a forked board carries the half-move clock, the per-hash counters and the shared past of the original, so draws are adjudicated on it exactly as on the original (the rule of C08, re-decided here)", 4)
+	c.guard("R05-fork", func() { r.WithAlias("R08-fork", "R05-fork", func() { c08Fork(c, g) }) })
 }
 
 var pawnOrCapture = map[string]bool{"Push": true, "Jump": true, "EnPassant": true, "Capture": true, "Promotion": true, "CapturePromotion": true}
@@ -106,7 +110,7 @@ func c05ClockRule(c *Ctx, g *gameModel, rule string) {
 		r.Check(good, rule, cons, where, kind, fmt.Sprintf("clock after a %s move is %s; a %s move %s", kind, got, kind, what))
 	}
 	// the first node's clock
-	newBoard := c.P.Func("pkg/board", "", "NewBoard")
+	newBoard := c.find("pkg/board", "", "NewBoard")
 	if newBoard == nil {
 		r.Undecided(rule, "anchor:NewBoard", "", "", "constructor not found")
 		return
@@ -291,7 +295,7 @@ func c05Recount(c *Ctx, g *gameModel) {
 		switch {
 		case types.Identical(p.Type(), types.Typ[types.Int]):
 			limitP = p
-		case namedOf(p.Type()) != nil && namedOf(p.Type()).Obj().Name() == "node":
+		case namedOf(p.Type()) != nil && core.ObjName(namedOf(p.Type()).Obj()) == "node":
 			nodeP = p
 		default:
 			turnP = p
@@ -322,7 +326,7 @@ func c05Recount(c *Ctx, g *gameModel) {
 				}
 				continue
 			}
-			if namedOf(phi.Type()) != nil && namedOf(phi.Type()).Obj().Name() == "node" {
+			if namedOf(phi.Type()) != nil && core.ObjName(namedOf(phi.Type()).Obj()) == "node" {
 				cursor = phi
 			} else if types.Identical(phi.Type(), turnP.Type()) {
 				parity = phi
@@ -413,7 +417,7 @@ func c05Recount(c *Ctx, g *gameModel) {
 		xs, ys := pathExpr(bo.X), pathExpr(bo.Y)
 		xt := bo.X.Type()
 		switch {
-		case namedOf(xt) != nil && namedOf(xt).Obj().Name() == "Position" && !isPointer(xt):
+		case namedOf(xt) != nil && core.ObjName(namedOf(xt).Obj()) == "Position" && !isPointer(xt):
 			// *tmp.pos == *n.pos
 			a, b2 := xs, ys
 			if strings.HasPrefix(b2, "phi:") {
@@ -461,7 +465,7 @@ func c05Mate(c *Ctx, g *gameModel) {
 		col  string
 		want int64
 	}{{"Win", "White", whiteWins}, {"Win", "Black", blackWins}, {"Loss", "White", blackWins}, {"Loss", "Black", whiteWins}} {
-		f := c.P.Func("pkg/board", "", t.fn)
+		f := c.find("pkg/board", "", t.fn)
 		if f == nil {
 			r.Undecided("R05-mate", "anchor:board."+t.fn, "", "", "not found")
 			continue
@@ -568,9 +572,9 @@ func recountGuards(c *Ctx, g *gameModel) (posEq, parityEq bool, detail, where st
 		}
 		xt := bo.X.Type()
 		switch {
-		case namedOf(xt) != nil && namedOf(xt).Obj().Name() == "Position" && !isPointer(xt):
+		case namedOf(xt) != nil && core.ObjName(namedOf(xt).Obj()) == "Position" && !isPointer(xt):
 			posEq = true
-		case namedOf(xt) != nil && namedOf(xt).Obj().Name() == "Color":
+		case namedOf(xt) != nil && core.ObjName(namedOf(xt).Obj()) == "Color":
 			parityEq = true
 		default:
 			others = append(others, pathExpr(bo.X)+"=="+pathExpr(bo.Y))
